@@ -561,6 +561,25 @@ class AccessMixin(object):
       res = V(a.ty.with_opt(False), r)
       self.set_update(st, res, mem=self.set_mem_arr(st, a), card=self.set_card(st, a))
       yield st, res
+    elif name == 'set' and len(args) == 1 and isinstance(args[0], V) and args[0].ty.k == 'list':
+      # set(<list>): x is a member exactly when some item of the list equals x
+      a = args[0]
+      ety = a.ty.args[0]
+      if ety.k not in ('int', 'str', 'any', 'ref'):
+        raise Unsupported('set(list[%r])' % ety)
+      n = self.list_len(st, a)
+      r = self.new_ref(st)
+      res = V(Ty('set', [ety]), r)
+      mem = z3.Const(fresh_name('setof'), z3.ArraySort(base_sort(ety), z3.BoolSort()))
+      x = z3.Const(fresh_name('x'), base_sort(ety))
+      k = z3.Int(fresh_name('k'))
+      items = z3.Select(self.arr(st, self.ckey(a.ty, 'items'), [I, I, base_sort(ety)]), a.t)
+      st.assume(z3.ForAll([x], z3.Select(mem, x) == z3.Exists([k], z3.And(0 <= k, k < n, z3.Select(items, k) == x))))
+      st.assume(z3.ForAll([k], z3.Implies(z3.And(0 <= k, k < n), z3.Select(mem, z3.Select(items, k))), patterns=[z3.Select(items, k)]))
+      card = z3.Int(fresh_name('card'))
+      st.assume(z3.And(card >= 0, card <= n, (card == 0) == (n == 0)))
+      self.set_update(st, res, mem=mem, card=card)
+      yield st, res
     elif name == 'set' and not args:
       ty = getattr(node, '_pyvc_type', None)
       if ty is None:
@@ -780,6 +799,18 @@ class AccessMixin(object):
       res = V(s.ty.with_opt(False), r)
       self.set_update(st, res, mem=mem, card=card)
       yield st, res
+    elif name in ('difference_update', 'intersection_update') and len(args) == 1 and isinstance(args[0], V) and args[0].ty.k in ('set', 'dict'):
+      # in-place difference / intersection with another set, or with the keys of a dictionary
+      o = args[0]
+      other = self.set_mem_arr(st, o) if o.ty.k == 'set' else self.dict_has_arr(st, o)
+      x = z3.Const(fresh_name('x'), base_sort(ety))
+      nm = z3.Const(fresh_name('setop'), z3.ArraySort(base_sort(ety), z3.BoolSort()))
+      keep = z3.Not(z3.Select(other, x)) if name == 'difference_update' else z3.Select(other, x)
+      st.assume(z3.ForAll([x], z3.Select(nm, x) == z3.And(z3.Select(mem, x), keep)))
+      nc = z3.Int(fresh_name('card'))
+      st.assume(z3.And(nc >= 0, nc <= card, z3.Implies(nm == mem, nc == card)))
+      self.set_update(st, s, mem=nm, card=nc)
+      yield st, NONE_V
     else:
       raise Unsupported('set.%s' % name)
 
